@@ -23,6 +23,7 @@ _F32X_BITS = [0x7F800000, 0xFF800000, 0x7FC00000, 0xFFC00001]
 F32X = [np.array([b], "<u4").view("<f4")[0] for b in _F32X_BITS]
 _F64X_BITS = [0x7FF0000000000000, 0xFFF0000000000000, 0x7FF8000000000000, 0xFFF8000000000001]
 F64X = [np.array([b], "<u8").view("<f8")[0] for b in _F64X_BITS]
+MEM_LAYOUTS = ("fortran", "bigendian", "strided", "readonly")
 LABELS = ["", "a", "A", " a", "a ", "é€ß", "x" * 255]
 LABELS32 = ["", "a", "A", " a", "a ", "é€ß", "y" * 31]
 INT_FREQ = [0, 1, 100, 2 ** 31 - 1]
@@ -295,8 +296,9 @@ def family(t, tier):
         # (6) scalar header fields, one deviation each
         for sp in _scalar_devs(t, rle_block(t, 3, [(True, False, True), (False, True, True)], chans=[5, 1])):
             yield ("scalar", sp, opts0)
-        for mem in ("f8",):
+        for mem in ("f8",) + MEM_LAYOUTS:
             yield ("mem", rle_block(t, 3, [(True, False, True)]), {"mem": mem})
+            yield ("mem", rle_block(t, 4, [(True, True, True, True), (False, True, True, False)], chans=[5, 1]), {"mem": mem})
         if t in (R.T_EMG, R.T_PLATDATA):
             for ch in CHAN_BY_KIND[t]:
                 yield ("chan", rle_block(t, 2, [(True, True), (True, False)], chans=[ch, 7]), opts0)
@@ -345,7 +347,11 @@ def family(t, tier):
                 else:
                     it["position"].reshape(-1)[pos - 2] = v
                 yield ("floatx", platcal([(3, mk_platinfo("q", 1)), (0, it)]), opts0)
+        for mem in MEM_LAYOUTS:
+            yield ("mem", platcal([(3, mk_platinfo("p", 2)), (0, mk_platinfo("q", 4))]), {"mem": mem})
     elif t == R.T_DATA2D:
+        for mem in MEM_LAYOUTS:
+            yield ("mem", data2d(2, 2, cells_grid(2, 2, (3, 0, 1, 3))), {"mem": mem})
         shapes = [(1, 1), (1, 2), (2, 1), (2, 2)] + ([(3, 2), (2, 3)] if thorough else [])
         for (nf, nc) in shapes:
             kindset = (0, 1, 3) if nf * nc <= 4 else (0, 1)
@@ -370,6 +376,8 @@ def family(t, tier):
             yield ("chan", {**base(), "map": np.array([7, ch], "<u2")}, opts0)
     elif t == R.T_CALIB:
         for fmt in (1, 2):
+            for mem in MEM_LAYOUTS:
+                yield ("mem", calib(fmt, [mk_cam(fmt, 1), mk_cam(fmt, 2)]), {"mem": mem})
             for k in range(0, 4):
                 for chans in itertools.permutations(INT_CHAN, k):
                     yield (f"count/f{fmt}", calib(fmt, [mk_cam(fmt, i) for i in range(k)], cmap=list(chans)), opts0)
@@ -431,6 +439,8 @@ def family(t, tier):
                     evs = [mk_event(f"E{i}", kinds[i], nvals[i], i) for i in range(k)]
                     for mem in ("disk", "f8"):
                         yield (f"count/{k}", events(evs), {"mem": mem})
+        for mem in MEM_LAYOUTS:
+            yield ("mem", events([mk_event("d", 0, 1), mk_event("e", 1, 3, 2)]), {"mem": mem})
         for lab in LABELS:
             for where in range(2):
                 labs = ["k0", "k1"]
